@@ -7,8 +7,8 @@ namespace Driver
 
 def parseSReq (j : Json) : P Req := do
   let lost ← match optFld j "lost" with
-    | some v => (do let n ← nat v; pure (n != 0))
-    | Option.none => pure false
+    | some v => nat v
+    | Option.none => pure 0
   let bcast ← match optFld j "bcast" with
     | some v => (do let n ← nat v; pure (n != 0))
     | Option.none => pure false
@@ -28,6 +28,7 @@ def parseLockScope (s : String) : P LockScope :=
   | "leakOnFail" => pure .leakOnFail
   | "lockOnlyWhenCold" => pure .lockOnlyWhenCold
   | "broadcastOutside" => pure .broadcastOutside
+  | "releaseClientLockInBackoff" => pure .releaseClientLockInBackoff
   | o => throw s!"bad lock scope {o}"
 
 def jSMsg : Msg → Json
@@ -67,7 +68,14 @@ def opSched (j : Json) : P Json := do
     | some f => bool f
     | Option.none => pure false
   let connOk : Nat → Bool := fun k => !failAll && !(fails.contains k)
-  let mut s := init reqs connected connOk
+  -- the client's retry configuration: {"retries": k, "retry_on_empty": bool} (default: 3, false)
+  let cfg : Cfg ← match optFld j "retry" with
+    | some c => (do
+        let r ← fNat c "retries"
+        let e ← fBool c "retry_on_empty"
+        pure { retries := r, retryOnEmpty := e, backoff := true })
+    | Option.none => pure {}
+  let mut s := init reqs connected connOk cfg
   let mut fine : List Nat := []
   let mut maxFlight := 0
   let mut stutter : List Nat := []
@@ -103,8 +111,8 @@ def opSched (j : Json) : P Json := do
     decide (((s.threads t).results.map (·.1)) = reqs t) &&
     (s.threads t).results.all (fun x =>
       (x.1.bcast && decide (x.2.2 = Result.bcastSent)) ||
-      (!x.1.bcast && !x.1.lost && decide (Spec.OwnReply x)) ||
-      (!x.1.bcast && x.1.lost && decide (x.2.2 = Result.err PyErr.modbusIO)) ||
+      (!x.1.bcast && decide (x.1.lost < cfg.attempts) && decide (Spec.OwnReply x)) ||
+      (!x.1.bcast && decide (cfg.attempts ≤ x.1.lost) && decide (x.2.2 = Result.err PyErr.modbusIO)) ||
       (anyRefused && decide (x.2.2 = Result.raised PyErr.modbusExc))))
   pure (Json.mkObj [
     ("trace", jArr (s.trace.reverse.map (fun e => jArr [jNat e.1, Json.str e.2.name]))),
@@ -119,7 +127,7 @@ def opSched (j : Json) : P Json := do
     ("fine", jNats fine.reverse), ("stutter", jNats stutter.reverse),
     ("finished", jB01 finished), ("deadlock", jB01 (!finished && !anyRunnable)),
     ("runnable", jNats ((List.range n).filter (runnable scope s))),
-    ("work", jNat (totalWork scope (init reqs connected connOk) n)), ("attempts", jNat s.attempts),
+    ("work", jNat (totalWork scope (init reqs connected connOk cfg) n)), ("attempts", jNat s.attempts),
     ("spec_max_in_flight", jNat maxFlight), ("spec_exclusive", jB01 (maxFlight ≤ 1)),
     ("spec_contiguous", jB01 (Spec.contiguous s.wire)), ("spec_served", jB01 served)])
 
